@@ -6,6 +6,7 @@ import (
 	"net"
 	"sync"
 
+	"github.com/buildbuildio/pebbles/common"
 	"github.com/buildbuildio/pebbles/executor"
 	"github.com/buildbuildio/pebbles/gqlerrors"
 	"github.com/buildbuildio/pebbles/planner"
@@ -135,10 +136,13 @@ func (se *subscriptionEntry) prepareResponse(resp *requests.Response) *requests.
 }
 
 func (se *subscriptionEntry) Close() {
+	common.VerifPoint("sub.c.start", se.queryerCloseCh)
 	select {
 	case se.closeCh <- struct{}{}:
+		common.VerifPoint("sub.c.sent", se.queryerCloseCh)
 	// listener is already done
 	case <-se.queryerCloseCh:
+		common.VerifPoint("sub.c.late", se.queryerCloseCh)
 	}
 }
 
@@ -150,14 +154,17 @@ func (se *subscriptionEntry) Listen(conn net.Conn) {
 		// other channels are left open, nobody should ever send on a closed channel
 		close(se.queryerCloseCh)
 		se.isClosed = true
+		common.VerifPoint("sub.l.closed", se.queryerCloseCh, se.id)
 	}()
 
 	for {
 		select {
 		case resp := <-se.respCh:
 			if resp == nil {
+				common.VerifPoint("sub.l.nil", se.queryerCloseCh, se.id)
 				return
 			}
+			common.VerifPoint("sub.l.resp", se.queryerCloseCh, se.id)
 			resp = se.prepareResponse(resp)
 			bResp, err := json.Marshal(requests.ServerSubMsg{
 				ID:      se.id,
@@ -165,12 +172,16 @@ func (se *subscriptionEntry) Listen(conn net.Conn) {
 				Payload: resp,
 			})
 			if err != nil {
+				common.VerifPoint("sub.l.writefail", se.queryerCloseCh, se.id)
 				return
 			}
 			if err := writeServerText(conn, bResp); err != nil {
+				common.VerifPoint("sub.l.writefail", se.queryerCloseCh, se.id)
 				return
 			}
+			common.VerifPoint("sub.l.written", se.queryerCloseCh, se.id)
 		case <-se.closeCh:
+			common.VerifPoint("sub.l.close", se.queryerCloseCh, se.id)
 			return
 		}
 
